@@ -983,3 +983,41 @@ Proof.
     rewrite E2. cbn [cs_rt cs_in cs_open]. rewrite Eq2.
     eexists. split; [reflexivity|]. cbn [cs_in cs_rt cs_open]. repeat split; auto. unfold upd. now rewrite Z.eqb_refl.
 Qed.
+
+(* ================================================================ one packet object, many encodes *)
+Lemma h_run_current : forall ops p,
+  Forall2 (fun out q => match out with
+                        | Ok b => b = wire_data q \/ b = frame q
+                        | Exc _ => 65533 < zlen (c_data q)
+                        end) (h_run p ops) (h_states p ops).
+Proof.
+  induction ops as [|[m| |] ops IH]; intros p; cbn [h_run h_states].
+  - constructor.
+  - apply IH.
+  - constructor; [now left|apply IH].
+  - constructor; [|apply IH]. unfold write_packet. destruct (zlen (c_data p) + 2 <=? 65535) eqn:E; [now right|lia].
+Qed.
+
+(* every encode carries the attribute values of that moment: decoding the k-th output gives them back *)
+Lemma h_run_decodes : forall ops p, Forall wf_attrs (h_states p ops) ->
+  Forall2 (fun out q => exists b, out = Ok b /\ (b = wire_data q \/ b = frame q) /\ set_wire (wire_data q) = Ok (refresh q))
+          (h_run p ops) (h_states p ops).
+Proof.
+  induction ops as [|[m| |] ops IH]; intros p H; cbn [h_run h_states] in *.
+  - constructor.
+  - now apply IH.
+  - inversion H as [|? ? Hp Hr]; subst. constructor; [|now apply IH].
+    exists (wire_data p). repeat split; auto. exact (set_wire_wire_data _ (refresh_wf p Hp)).
+  - inversion H as [|? ? Hp Hr]; subst. constructor; [|now apply IH].
+    exists (frame p). repeat split; auto.
+    + pose proof (write_packet_wf _ (refresh_wf p Hp)) as W. exact W.
+    + exact (set_wire_wire_data _ (refresh_wf p Hp)).
+Qed.
+
+(* a cache that is not invalidated by one of the fields sends a stale byte: last chunk of a transfer without its flag *)
+Lemma stale_cache_refuted :
+  exists p ops, hc_run p None ops <> map (fun q => wire_data q) (h_states p ops).
+Proof.
+  exists (new_cpx 5 4 T_HOST [1; 2]), [PEnc; PMut (MData [3]); PMut (MLast true); PEnc].
+  vm_compute. discriminate.
+Qed.
